@@ -51,7 +51,7 @@ PROPS = {
             "explanation": "the real body of delimited_jelly_hint is executed symbolically under the premise 'the three bytes start a stream laid out as delimited(varint(L) ++ frame) or as a single frame whose first row is the options row', for all L and row lengths; the obligation is hint == framing. get_options_and_frames then decides by that hint on the first three content bytes (C09).",
             "note": "Wire facts (varint framing, tag 0x0A) are part of A-PROTO."},
     "C09": {"level": "other", "technique": TECH_M, "assumptions": COMMON + [A_PROTO, A_IO],
-            "explanation": "proof: get_options_and_frames takes the framing decision on the first three bytes of the source's content for every seekable source and, for non-seekable ones, whenever BufferedReader.peek delivered three bytes; the remaining case (short peek) is the labelled known finding D5; frame_iterator hands out each frame before reading the next. Bounded: every source kind x short-read schedules on real bytes.",
+            "explanation": "proof: get_options_and_frames classifies a stream laid out in either framing (any frame length, any options-row length) by its content, however reads are chunked: for every seekable source and, for non-seekable ones, whenever BufferedReader.peek delivered three bytes; the remaining case (short peek) is the labelled known finding D5; frame_iterator hands out each frame before reading the next. Bounded: every source kind x short-read schedules on real bytes.",
             "note": "The I/O layer is a trusted model (A-IO); independence from chunking *inside* the upb parser is bounded only."},
     "C10": {"level": "other", "technique": TECH_M, "assumptions": COMMON + [A_PROTO, A_IO, A_ABS],
             "explanation": "proof: iter_rows decodes and yields row by row without look-ahead, frame_iterator reads one frame at a time: whatever was yielded before a truncation point was decoded from complete rows by the spec rules; bounded: every cut offset of small delimited streams, both integrations.",
